@@ -101,6 +101,12 @@ func c33_encode(r *verifx.Rng, key string, style int) string {
 			} else {
 				sb.WriteByte(b)
 			}
+		case 6: // per byte at random, but '/' and '.' always literal
+			if b != '/' && b != '.' && (c33_mustEscape(b) || r.Chance(1, 4)) {
+				sb.WriteString(c33_pct(b, verifx.Pick(r, []string{c33Upper, c33Lower})))
+			} else {
+				sb.WriteByte(b)
+			}
 		default: // 5: like the SDK but '/' escaped at random
 			if c33_isAlnum(b) || strings.IndexByte("-_.~", b) >= 0 || (b == '/' && r.Chance(2, 3)) {
 				sb.WriteByte(b)
@@ -139,8 +145,14 @@ var c33BktOps = [][2]string{
 	{"PUT", ""}, {"DELETE", "cors"}, {"DELETE", "website"}, {"DELETE", ""}, {"OPTIONS", ""}, {"POST", "delete"}, {"PUT", "versioning"},
 }
 
+// c33_avoidKnown: three cases out of four stay clear of the two known findings (keys ending in
+// '/', encoded slashes/dots), so that a DIFFERENT mismatch or a model divergence in them is never
+// overshadowed by a known one in the same case.
+func c33_avoidKnown(caseNo int) bool { return caseNo%4 != 0 }
+
 func genC33Case(r *verifx.Rng, caseNo int) c33Case {
 	var c c33Case
+	avoid := c33_avoidKnown(caseNo)
 	nOps := 6 + r.Intn(8)
 	for i := 0; i < nOps; i++ {
 		b := c33_bucketName(r, caseNo, i)
@@ -158,6 +170,13 @@ func genC33Case(r *verifx.Rng, caseNo int) c33Case {
 		}
 		key := c33_genKey(r)
 		style := verifx.Pick(r, []int{0, 1, 1, 1, 2, 3, 4, 4, 5})
+		if avoid {
+			key = strings.TrimRight(key, "/")
+			if key == "" {
+				key = "k"
+			}
+			style = verifx.Pick(r, []int{0, 1, 1, 2, 6})
+		}
 		o := verifx.Pick(r, c33ObjOps)
 		op := c33ApiOp{bucket: b, key: key, ek: c33_encode(r, key, style), obj: true, method: o[0], query: o[1], seed: r.Chance(2, 3)}
 		switch {
